@@ -123,6 +123,12 @@ def gen_spec(rng, kind=None):
             spec["max_t"] = spec["custom_rungs"][-1][1]
         if kind == "dehb" and not spec.get("straggler_factor") and rng.random() < 0.3:
             spec["support_pause_resume"] = False
+        if kind == "sync" and rng.random() < 0.6:
+            # tied metric values at the promotion boundary (discrete / saturated metric), several workers of
+            # different speed so that results arrive out of slot order
+            spec["flavour"] = rng.choice(["ties", "saturated", "saturated"])
+            spec["n_workers"] = rng.randint(2, 4)
+            spec["nan_den"] = None
         if kind == "sync":
             # the Tuner installs RemoveCheckpointsCallback itself iff delete_checkpoints; a user may also add it
             spec["remove_callback"] = spec["delete_checkpoints"] or rng.random() < 0.3
